@@ -8,12 +8,29 @@ declare -A CHECKS=(
  [C09b]="C09" [C09r2]="C09" [C10]="C10" [C10r2]="C10" [C11]="C11" [C11r2]="C11" [C12b]="C12" [C12r2]="C12"
  [C13]="C13" [C13r2]="C13" [C14]="C14 C16" [C14r2]="C14" [C15]="C15" [C15r2]="C15" [C16]="C16" [C16r2]="C16"
  [C17]="C17" [C17r2]="C17" [C18]="C18" [C18r2]="C18" [C19]="C19" [C19r2]="C19" [C20]="C20" [C20r2]="C20 C16"
+ [C01r3]="C01" [C02r3]="C18" [C03r3]="C13" [C04r3]="C13" [C05r3]="C05 C10" [C06r3]="C06" [C07r3]="C07 C05" [C08r3]="C08 C17"
+ [C09r3]="C09" [C10r3]="C10" [C11r3]="C11" [C12r3]="C12" [C13r3]="C13" [C14r3]="C14 C13" [C15r3]="C15" [C16r3]="C16"
+ [C17r3]="C17" [C18r3]="C18 C06" [C19r3]="C19" [C20r3]="C20 C15"
 )
 echo "" >> seeded/RESULTS.md
 echo "## run $(date -u '+%Y-%m-%d %H:%M:%S') UTC, repo HEAD $(git -C /repo rev-parse --short HEAD), verif HEAD $(git rev-parse --short HEAD)" >> seeded/RESULTS.md
 echo "" >> seeded/RESULTS.md
 echo "| seed | check | exit | first identity |" >> seeded/RESULTS.md
 echo "|---|---|---|---|" >> seeded/RESULTS.md
+declare -A REVERTS=( [revert_fix_membership_root]="C05 C07" [revert_fix_membership_path]="C08" )
+for m in "${!REVERTS[@]}"; do
+  [ -z "$(git -C /repo status --porcelain)" ] || { echo "/repo not clean"; exit 2; }
+  git -C /repo apply /verif/mutants/$m.diff 2>/dev/null || { echo "| $m | - | - | PATCH DOES NOT APPLY |" >> seeded/RESULTS.md; continue; }
+  for c in ${REVERTS[$m]}; do
+    cp evidence/$c.json /tmp/ev_$c.json 2>/dev/null
+    out=$(bin/check $c --tier quick 2>&1); rc=$?
+    first=$(echo "$out" | grep -m1 "identity:" | sed 's/^ *identity: //' | cut -c1-140)
+    echo "| $m | $c | $rc | $first |" >> seeded/RESULTS.md
+    echo "$m $c rc=$rc $first"
+    cp /tmp/ev_$c.json evidence/$c.json 2>/dev/null
+  done
+  git -C /repo checkout -- .
+done
 for id in $(ls seeded | grep -v RESULTS | sort); do
   checks="${CHECKS[$id]}"
   [ -z "$checks" ] && { echo "| $id | - | - | not in regression (neutralised by a fix) |" >> seeded/RESULTS.md; continue; }
